@@ -619,17 +619,19 @@ def rkn_stages(c, A, Abar, K, g, dt, t0, x0, v0):
 # ======================================================================================================================
 # linear multistep:  u_{n+1} - dt beta_N f_{n+1} = - sum_i alpha_i u_i + sum_i dts_i beta_i f_i
 # ======================================================================================================================
-def multistep_step(alpha, beta, us, fs, ts, t_new, dt, split):
+def multistep_step(alpha, beta, us, fs, ts, t_new, dt, split, dts=None):
     """One step of the alpha/beta recurrence as documented in MultiStep.__init__: the oldest value first, the last beta is
     the implicit weight; the weights of the explicit part are multiplied with the distance to the *next* cached time."""
     N = len(alpha)
     n = split.n
-    dts = [ts[i + 1] - ts[i] for i in range(N - 1)] + [t_new - ts[-1]]
+    if dts is None:
+        dts = [ts[i + 1] - ts[i] for i in range(N - 1)] + [t_new - ts[-1]]
     rhs = np.zeros(n, dtype=_c(us[0], split.A))
     absr = np.zeros(n)
     for i in range(N):
         rhs = rhs - alpha[i] * us[i] + dts[i] * beta[i] * fs[i]
-        absr = absr + abs(alpha[i]) * np.abs(us[i]) + abs(dts[i] * beta[i]) * np.abs(fs[i])
+        # step sizes formed as differences of times carry an absolute rounding error eps |t|
+        absr = absr + abs(alpha[i]) * np.abs(us[i]) + (abs(dts[i]) + abs(t_new)) * abs(beta[i]) * np.abs(fs[i])
     fac = dt * beta[-1]
     g = np.asarray(split.g(t_new)).reshape(n)
     LHS = np.eye(n) - fac * split.A
